@@ -37,7 +37,8 @@ STUBS = ['caller input/output streams (SimReader/SimWriter)', 'user constructors
 EXC_KINDS = ['OSError', 'SimError', 'SimAbort', 'KeyboardInterrupt', 'MemoryError', 'IndexError', 'TypeError',
              'UnicodeDecodeError', 'UnicodeEncodeError', 'AttributeError', 'YAMLError', 'ReaderError', 'ValueError',
              'KeyError', 'EmitterError', 'ConstructorError', 'RepresenterError', 'AssertionError', 'ImportError',
-             'RecursionError', 'SystemExit', 'InterruptedError', 'BlockingIOError', 'LookupError', 'EOFError', 'BufferError']
+             'RecursionError', 'SystemExit', 'InterruptedError', 'BlockingIOError', 'LookupError', 'EOFError', 'BufferError',
+             'BrokenPipeError', 'ConnectionResetError', 'TimeoutError', 'PermissionError', 'FileNotFoundError']
 
 # a plain function that raises StopIteration is not touched by PEP 479: from a representer (never called inside a
 # generator frame of the library) it must pass through like any other exception
@@ -61,6 +62,10 @@ def make_exc(kind, tag):
     import yaml
     if kind == 'OSError':
         return OSError(errno.EIO, 'simulated I/O error %s' % tag)
+    if kind in ('BrokenPipeError', 'ConnectionResetError', 'TimeoutError', 'PermissionError', 'FileNotFoundError'):
+        code = {'BrokenPipeError': errno.EPIPE, 'ConnectionResetError': errno.ECONNRESET, 'TimeoutError': errno.ETIMEDOUT,
+                'PermissionError': errno.EACCES, 'FileNotFoundError': errno.ENOENT}[kind]
+        return OSError(code, 'simulated %s %s' % (kind, tag))       # OSError(errno, ...) yields the subclass
     if kind == 'SimError':
         return SimError(tag)
     if kind == 'SimAbort':
@@ -400,7 +405,10 @@ def run_once(yaml, case, world, payload, faults, sticky=False):
         sizes = [max(k, floor) for k in (case.get('sizes') or ())]
         then = case.get('then')
         then = max(then, floor) if then is not None else None
-        s = SimReader(data, sizes, then, fault=rfault[0] if rfault else None, log=log, sticky=sticky)
+        s = SimReader(data, sizes, then, fault=rfault[0] if rfault else None, log=log, sticky=sticky,
+                      name='/srv/app/config.yaml' if case['salt'] % 3 == 0 else None)
+        if case['salt'] % 5 < 2 and form == 'text':
+            s.encoding = 'utf-8'         # what an open(path, encoding=...) text file advertises
         api = case['api']
         L = world['Loader']
         try:
@@ -520,6 +528,10 @@ def execute(case):
     def one_fault(point, kind, injected):
         itype, iargs = type(injected), injected.args
         icause, isuppress = injected.__cause__, injected.__suppress_context__
+        try:
+            istr = str(injected)
+        except Exception:
+            istr = None
         istate = dict(vars(injected)) if hasattr(injected, '__dict__') else {}
         # every other stream fault point is sticky: the stream keeps failing after the injected call
         sticky = point[0] in ('r', 'w') and kernel.H(case['salt'], 'sticky', point[0], point[1]) % 2 == 1
@@ -549,6 +561,12 @@ def execute(case):
             return {'class': 'exception-replaced', 'detail': dict(where, got=exc_summary(yaml, exc), chain=chain)}
         if type(exc) is not itype or exc.args != iargs:
             return {'class': 'exception-mutated', 'detail': dict(where, args=repr(exc.args)[:200])}
+        try:
+            estr = str(exc)
+        except Exception:
+            estr = None
+        if estr != istr:
+            return {'class': 'exception-state-changed', 'detail': dict(where, str_before=(istr or '')[:200], str_after=(estr or '')[:200])}
         state = dict(vars(exc)) if hasattr(exc, '__dict__') else {}
         if set(state) != set(istate) or any(state[k] is not istate[k] and state[k] != istate[k] for k in state):
             changed = sorted(k for k in set(state) | set(istate) if k not in state or k not in istate or (state[k] is not istate[k] and state[k] != istate[k]))
